@@ -2,6 +2,10 @@
 # Build the Lean library (shared infrastructure + every claimed property's model and theorems), offline.
 cd "$(dirname "$0")/lean" || exit 2
 lake build || exit 1
-mods=$(ls LokiModel/Props/*.lean 2>/dev/null | sed 's#/#.#g; s#\.lean$##')
-[ -n "$mods" ] && { lake build $mods || exit 1; }
+for id in $(cat ../tools/claimed.txt); do
+  mods="LokiModel.Props.$id"
+  [ -f "LokiModel/$id/Codec.lean" ] && mods="$mods LokiModel.$id.Codec"
+  [ -f "LokiModel/$id/Model.lean" ] && mods="$mods LokiModel.$id.Model"
+  lake build $mods || exit 1
+done
 exit 0
